@@ -60,6 +60,13 @@ class ListObj(SyncObj):
         OBS.append(('apply-raise', pos, sid))
         raise ValueError('boom %r' % (sid,))
 
+    @replicated
+    def boom0(self):
+        # raising method called without any argument (the command is pickled as a bare method id)
+        pos = self.raftLastApplied + 1
+        OBS.append(('apply-raise0', pos))
+        raise KeyError('boom0')
+
 
 class VOld(SyncObj):
     """'Old code': put exists in version 0 only."""
@@ -605,7 +612,12 @@ class Stepper(object):
         dead.kills = b.kills + 1
         dead.vfs = b.vfs.clone_files()
         # what a restart would recover (trial restart on a copy of the files)
-        trial = build_node(self.cfg, b.nid, self.cfg.members or self.cfg.voter_ids(), vfs_obj=b.vfs.clone_files(), now=b.now)
+        try:
+            trial = build_node(self.cfg, b.nid, self.cfg.members or self.cfg.voter_ids(), vfs_obj=b.vfs.clone_files(), now=b.now)
+        except Exception as e:
+            raise core.Violation('C06 %s killed %s: starting it again from its files raises %s: %s' % (
+                b.nid, 'between steps' if ev is None else 'before OS-visible mutation %d of %r' % (at, ev[:2]),
+                type(e).__name__, e), sig='restart-raises')
         run_event(trial, ('tick', 0.0), self.cfg)     # the first tick loads the dump, before any message is handled
         ts = summarize(trial)
         dead.extra = {'durable': (ts.first, tuple((e[1], e[2]) for e in ts.log)),
@@ -669,6 +681,9 @@ def run_event(b, ev, cfg, kill_at=None):
             # ('put', sid, method, args, kwargs)
             sid = ev[1]
             getattr(b.so, ev[2])(sid, *ev[3], callback=functools.partial(b.rec.cb, sid), **dict(ev[4]))
+        elif kind == 'call0':
+            # ('call0', sid, method): replicated call without any argument
+            getattr(b.so, ev[2])(callback=functools.partial(b.rec.cb, ev[1]))
         elif kind == 'putp':
             sid = ev[1]
             a, kw = pickle.loads(ev[3])
@@ -1067,6 +1082,8 @@ class ClusterModel(object):
             bud = self.spend(w, 'S') if len(ev) < 4 else w.budget
             if bud is None:
                 return None
+            if ev[2].endswith('0'):
+                return self.node_step(w, ev[1], ('call0', ('z', w.nsub), ev[2]), budget=bud, nsub=w.nsub + 1, label=ev)
             return self.node_step(w, ev[1], ('put', w.nsub, ev[2], (), ()), budget=bud, nsub=w.nsub + 1, label=ev)
         if kind == 'SA':   # ('SA', node, pickled (args, kwargs)): put with explicit arguments, no budget
             return self.node_step(w, ev[1], ('putp', w.nsub, 'put', ev[2]), nsub=w.nsub + 1, label=ev)
